@@ -86,7 +86,7 @@ func (v *V1) GetRecordSize(buf []byte, startFileOffset uint32) (payloadSize uint
 
 func (v *V1) ReadHeaderWithValidation(buf []byte, startFileOffset uint32) (payloadSize uint32, previousCrc uint32, payloadCrc uint32, err error) {
 	bufSize := uint32(len(buf))
-	if startFileOffset >= bufSize {
+	if bufSize < v.HeaderSize || startFileOffset > bufSize-v.HeaderSize {
 		return payloadSize, previousCrc, payloadCrc, errors.Wrapf(ErrOffsetOutOfBounds,
 			"expected payload size: %d. actual buf size: %d ", startFileOffset+v1PayloadSizeLen, bufSize)
 	}
@@ -97,9 +97,9 @@ func (v *V1) ReadHeaderWithValidation(buf []byte, startFileOffset uint32) (paylo
 		return payloadSize, previousCrc, payloadCrc, errors.Wrapf(ErrEmptyPayload, "unexpected empty payload")
 	}
 	expectSize := payloadSize + v.HeaderSize
-	// overflow checking
+	// overflow checking: compare the raw payload size first, the sum could wrap around
 	actualBufSize := bufSize - startFileOffset
-	if expectSize > actualBufSize {
+	if payloadSize > actualBufSize-v.HeaderSize {
 		return payloadSize, previousCrc, payloadCrc,
 			errors.Wrapf(ErrOffsetOutOfBounds, "expected payload size: %d. actual buf size: %d ", expectSize, bufSize)
 	}
